@@ -735,6 +735,8 @@ pub struct Gen {
     dups: bool,
     /// response-backlog schedules: far deadlines only, the sink rarely opens, handlers complete eagerly
     backlog: bool,
+    /// deadlines of 12 hours / 2 days and clock steps of 9 and 30 hours
+    hours: bool,
 }
 
 impl Gen {
@@ -763,9 +765,15 @@ impl Gen {
                 rng.gen_range(0..self.ids)
             };
             let dls = [0i64, 1, 2, 3, 5, 8, 10_000, 10_000, 10_000];
-            let dl = if self.backlog { 10_000 } else { dls[rng.gen_range(0..dls.len())] };
+            let dl = if self.backlog {
+                10_000
+            } else if self.hours && rng.gen_range(0..3) == 0 {
+                now + [43_200_000i64, 172_800_000][rng.gen_range(0..2)]
+            } else {
+                dls[rng.gen_range(0..dls.len())]
+            };
             let dl = if dl < 10_000 && rng.gen_bool(0.7) { now + dl } else { dl };
-            if !self.backlog && rng.gen_range(0..12) == 0 {
+            if !self.backlog && dl < 20_000 && rng.gen_range(0..12) == 0 {
                 ch.push((14, json!({"a":"Req","id":id,"dl":now + dl.min(10),"wrap":true})));
             } else {
                 ch.push((14, json!({"a":"Req","id":id,"dl":dl})));
@@ -799,6 +807,10 @@ impl Gen {
         {
             let d = [1u64, 1, 2, 5][rng.gen_range(0..4)];
             ch.push((8, json!({"a":"Tick","d":d})));
+            if self.hours {
+                let big = [32_400_000u64, 108_000_000][rng.gen_range(0..2)];
+                ch.push((2, json!({"a":"Tick","d":big})));
+            }
         }
         match self.mode.as_str() {
             "coupled" => {
@@ -864,7 +876,7 @@ pub fn random_sched(i: u64, rng: &mut StdRng, a: &Args) -> Sched {
                                 "reqs": rng.gen_range(1..=a.opt_u64("reqs", 5)), "ids": rng.gen_range(1..=3u64),
                                 "faults": faults, "fresh": fresh,
                                 "appdrop": a.opt_u64("appdrop", if fresh { 1 } else { 0 }) == 1 && fresh,
-                                "dups": a.opt_u64("dups", 0) == 1, "backlog": backlog}});
+                                "dups": a.opt_u64("dups", 0) == 1, "backlog": backlog, "hours": a.opt_u64("hours", 0) == 1}});
     Sched {
         id: format!("r{}", i),
         cfg,
@@ -907,6 +919,7 @@ pub fn run_one(scn: u64, s: &Sched) -> OneResult {
             appdrop: r.get("appdrop").and_then(|v| v.as_bool()).unwrap_or(false),
             dups: r.get("dups").and_then(|v| v.as_bool()).unwrap_or(false),
             backlog: r.get("backlog").and_then(|v| v.as_bool()).unwrap_or(false),
+            hours: r.get("hours").and_then(|v| v.as_bool()).unwrap_or(false),
         });
     }
     st.run_steps();
